@@ -3,7 +3,7 @@
 From Coq Require Import String List NArith ZArith Bool.
 From J5V.lib Require Import Text Outcome.
 From J5V.model Require Import BclLexer BclParser BclFmt.
-From J5V.proofs Require Import BclPosProofs BclLexerProofs BclParserProofs BclTextProofs BclFmtProofs.
+From J5V.proofs Require Import BclPosProofs BclLexerProofs BclParserProofs BclTextProofs BclFmtProofs BclFmtFullProofs.
 Import ListNotations.
 Local Open Scope Z_scope.
 
@@ -46,17 +46,27 @@ Theorem C19_fragment_invariant : forall data ds, collect_fmt data = Ok ds ->
 Proof. exact collect_fmt_chain. Qed.
 Print Assumptions C19_fragment_invariant.
 
-(* PARTIAL (one hypothesis short of C19_full_statement): applying the edits gives the formatter's
-   output up to trailing blank lines, provided the lines after the last statement are blank.
-   That hypothesis is a fact about the lexer (a line without tokens holds only white space) which
-   is checked on every run by the correspondence and the direct oracle but is not proved. *)
-Theorem C19_apply_partial : forall input ds out es,
+(* applying the edits gives the formatter's output up to trailing blank lines, provided the
+   lines after the last statement are blank ... *)
+Theorem C19_apply_given_blank_tail : forall input ds out es,
   collect_fmt (utf8_decode input) = Ok ds ->
   fmt_bytes input = Ok out -> fmt_diffs input = Ok es ->
   forallb blank_line (skipn (Z.to_nat (last (map fd_to (merge_diffs ds)) 0)) (split_on 10 input)) = true ->
   strip_trailing_blank (apply_edits (split_on 10 input) 0 es) = strip_trailing_blank (split_on 10 out).
 Proof. exact fmt_diffs_apply. Qed.
-Print Assumptions C19_apply_partial.
+Print Assumptions C19_apply_given_blank_tail.
+
+(* ... and they are: every rune is inside a token or is white space the lexer skipped, and every
+   token that is not an EOL ends on or before the last line of some fragment *)
+Theorem C19_trailing_lines_blank : forall input ds, collect_fmt (utf8_decode input) = Ok ds ->
+  forallb blank_line (skipn (Z.to_nat (last (map fd_to (merge_diffs ds)) 0)) (split_on 10 input)) = true.
+Proof. exact trailing_lines_blank. Qed.
+Print Assumptions C19_trailing_lines_blank.
+
+(* the property, at full strength *)
+Theorem C19_full : C19_full_statement.
+Proof. exact fmt_diffs_full. Qed.
+Print Assumptions C19_full.
 
 (* non-vacuity: leading blank lines, a brace-less header with a trailing comment (finding 10),
    a white-space-only gap line, "} // c" (two fragments on one line) *)
